@@ -170,8 +170,8 @@ def cont3(ctx: Ctx) -> None:
             else:
                 ctx.R.fail("CONT-3", mod, acc, f"`{norm(acc)}` is reachable with `{c}` possibly empty (no dominating non-emptiness test): IndexError escapes extract()",
                            construct=f"{norm(acc)} in {norm(_stmt(mod, acc))[:100]}")
-    if total < 13:
-        raise AnalysisError(f"CONT-3: {total} container accesses found (13 confirmed by hand)")
+    if total < 6:
+        raise AnalysisError(f"CONT-3: {total} container accesses found (13 confirmed by hand on the reference tree; fewer than 6 means the queues were not recognised)")
 
 
 def _stmt(mod: Mod, n: ast.AST) -> ast.AST:
@@ -640,6 +640,18 @@ def eng2(ctx: Ctx) -> None:
     def is_prune_branch(stmts: List[ast.stmt]) -> bool:
         return any(isinstance(x, ast.While) for s_ in stmts for x in ast.walk(s_))
     if is_prune_branch(d.body) == is_prune_branch(d.orelse):
+        # positive evidence of one specific wrong form: the whole queue filtered by depth instead of its leading run removed
+        for br in (d.body, d.orelse):
+            for s_ in br:
+                for a_ in ast.walk(s_):
+                    if isinstance(a_, ast.Assign) and norm(a_.targets[0]) == "to_unwrap":
+                        comps = [c_ for c_ in ast.walk(a_.value) if isinstance(c_, (ast.GeneratorExp, ast.ListComp)) and norm(c_.generators[0].iter) == "to_unwrap" and c_.generators[0].ifs
+                                 and "depth" in norm(c_.generators[0].ifs[0])]
+                        if comps:
+                            ctx.R.fail("ENG-2", mod, a_, f"the replace form filters the *whole* unwrap queue by depth (`{norm(a_)[:70]}`): only the leading run of entries at depth >= the frame's depth are its "
+                                       "callees; deeper entries that sit behind an entry further out belong to a later, unrelated group and must stay (PRUNE removes nothing outward of the frame's callees)",
+                                       construct="replace: whole-queue depth filter")
+                            return
         ctx.R.undecided("ENG-2", "cannot tell the replace branch from the insert branch")
         return
     replace_in_body = is_prune_branch(d.body)
@@ -1611,6 +1623,65 @@ def ori_rules(ctx: Ctx) -> None:
         else:
             ctx.R.undecided("ORI-3", "better_origin decides weak-referenceability in a way the rule does not follow")
 
+    # ORI-4 better_origin's preference: the candidate wins iff it is generator-like or the fallback is not; "generator-like"
+    # is the same three types the Frame filter keeps (a coroutine awaited from inside an async generator must become the origin
+    # of its own frames, otherwise extract_outermost(origin) recovers the generator's frame, not this one)
+    FULL = {"types.AsyncGeneratorType", "types.CoroutineType", "types.GeneratorType"}
+    params = [a.arg for a in bo.args.args]
+
+    def local_resolve(e: ast.AST) -> ast.AST:
+        if isinstance(e, ast.Name):
+            loc = [a.value for a in walk_scope(bo) if isinstance(a, ast.Assign) and len(a.targets) == 1 and norm(a.targets[0]) == e.id]
+            if len(loc) == 1:
+                return loc[0]
+            return resolve_expr(mod, e)
+        return e
+
+    isis = [c_ for c_ in ast.walk(bo) if isinstance(c_, ast.Call) and norm(c_.func) == "isinstance" and len(c_.args) == 2 and norm(c_.args[0]) in params]
+    if len(params) != 2 or not isis:
+        ctx.R.undecided("ORI-4", "better_origin does not choose by isinstance tests on its two parameters")
+    else:
+        bad4 = False
+        for c_ in isis:
+            tl = local_resolve(c_.args[1])
+            nm = {norm(x) for x in tl.elts} if isinstance(tl, ast.Tuple) else {norm(tl)}
+            if nm < FULL:
+                bad4 = True
+                ctx.R.fail("ORI-4", mod, c_, f"better_origin treats only {sorted(nm)} as generator-like when it looks at `{norm(c_.args[0])}`; missing {sorted(FULL - nm)}: an object of a missing type "
+                           "reached from inside a generator-like object keeps that outer object as the origin of its own frames (extract_outermost(origin) then recovers a different frame)",
+                           construct=f"better_origin: isinstance({norm(c_.args[0])}, ...) type list")
+            elif nm != FULL:
+                ctx.R.undecided("ORI-4", f"better_origin tests {sorted(nm)}")
+                bad4 = True
+        if not bad4:
+            cand, fb = params
+            ifs = [s_ for s_ in walk_scope(bo) if isinstance(s_, ast.If) and s_.body and isinstance(s_.body[0], ast.Return) and norm(s_.body[0].value) in (cand, fb)]
+            a1 = [norm(c_) for c_ in isis if norm(c_.args[0]) == cand]
+            a2 = [norm(c_) for c_ in isis if norm(c_.args[0]) == fb]
+            if len(ifs) == 1 and len(set(a1)) == 1 and len(set(a2)) == 1:
+                i_ = ifs[0]
+                blk = [b_ for b_ in ast.walk(bo) if isinstance(getattr(b_, "body", None), list) and i_ in b_.body] + [b_ for b_ in ast.walk(bo) if isinstance(getattr(b_, "orelse", None), list) and i_ in b_.orelse]
+                seq = blk[0].body if i_ in blk[0].body else blk[0].orelse
+                nxt = i_.orelse[0] if i_.orelse else (seq[seq.index(i_) + 1] if seq.index(i_) + 1 < len(seq) else None)
+                other = norm(nxt.value) if isinstance(nxt, ast.Return) and nxt.value is not None else None
+                first = norm(i_.body[0].value)
+                if other in (cand, fb) and other != first:
+                    want = (lambda e: e[a1[0]] or not e[a2[0]]) if first == cand else (lambda e: not (e[a1[0]] or not e[a2[0]]))
+                    try:
+                        ok4, cex4 = equivalent(i_.test, want, [a1[0], a2[0]])
+                    except AnalysisError as ex4:
+                        ok4, cex4 = None, str(ex4)
+                    if ok4:
+                        ctx.R.ok("ORI-4", "better_origin: the candidate wins iff it is a coroutine/generator/async generator or the fallback is not", "truth table over the two isinstance tests")
+                    elif ok4 is False:
+                        ctx.R.fail("ORI-4", mod, i_, f"better_origin must return the candidate iff it is generator-like or the fallback is not; counterexample {cex4}", construct="better_origin preference")
+                    else:
+                        ctx.R.undecided("ORI-4", f"better_origin condition not understood: {cex4}")
+                else:
+                    ctx.R.undecided("ORI-4", "better_origin's two returns not recognised")
+            else:
+                ctx.R.undecided("ORI-4", "better_origin's choice is not a single if over isinstance(candidate, T) / isinstance(fallback, T)")
+
 
 C05 = [cont1_2, cont3, cont4, cont5, def1, contw]
 # err1 is appended below, after its definition
@@ -1743,6 +1814,181 @@ def _bool_use(mod, fn: ast.AST, c: ast.Call) -> Optional[ast.AST]:
     return None
 
 
+def _boolean_parent(mod, x: ast.AST) -> Optional[ast.AST]:
+    """the node in which expression x is used as a truth value (operand of not / tested operand of and/or / test of if, while, ifexp)"""
+    p = mod.parent_of(x)
+    if isinstance(p, ast.BoolOp):
+        if any(v is x for v in p.values[:-1]):
+            return p
+        return _boolean_parent(mod, p)
+    if isinstance(p, ast.UnaryOp) and isinstance(p.op, ast.Not):
+        return p
+    if isinstance(p, (ast.If, ast.While, ast.IfExp)) and p.test is x:
+        return p
+    if isinstance(p, ast.comprehension) and any(i is x for i in p.ifs):
+        return p.iter
+    return None
+
+
+def truth2(ctx: Ctx) -> None:
+    """TRUTH-2 the engine never asks a stack item (an element of what unwrap_stackitem / elaborate_frame returned, the item handed
+    to a hook, the next inner item) for its truth value or for equality: `if item:`, `filter(None, items)`, `any(items)`, `item ==
+    x` run the target program's own __bool__ / __len__ / __eq__ (a perturbation, and an exception there escapes every guard), and a
+    leaf that happens to be falsy at this suspension point is dropped.  Items are compared with `is` / `is not` / isinstance only"""
+    mod = ctx.P.mod("_extract")
+    fn = mod.defs.get("extract_iter")
+    if fn is None:
+        raise AnalysisError("TRUTH-2: _extract.extract_iter not found")
+    hooks = ("unwrap_stackitem", "elaborate_frame")
+    containers: Set[str] = set()
+    elements: Set[str] = set()
+    WRAP = ("reversed", "list", "tuple", "iter", "filter", "enumerate", "collections.deque", "deque")
+
+    def cont_expr(e: ast.AST) -> bool:
+        if isinstance(e, ast.Name):
+            return e.id in containers
+        if isinstance(e, ast.Call):
+            f = norm(e.func)
+            if isinstance(e.func, ast.Name) and e.func.id in hooks:
+                return True
+            if f in WRAP:
+                return any(cont_expr(a) for a in e.args)
+            return False
+        if isinstance(e, (ast.Tuple, ast.List)):
+            return bool(e.elts) and all(el_expr(x) or cont_star(x) for x in e.elts)
+        if isinstance(e, ast.Subscript) and isinstance(e.slice, ast.Slice):
+            return cont_expr(e.value)
+        if isinstance(e, ast.IfExp):
+            return cont_expr(e.body) or cont_expr(e.orelse)
+        if isinstance(e, (ast.ListComp, ast.GeneratorExp)) and len(e.generators) == 1 and isinstance(e.elt, ast.Name) and isinstance(e.generators[0].target, ast.Name) \
+                and e.elt.id == e.generators[0].target.id:
+            return cont_expr(e.generators[0].iter)
+        return False
+
+    def cont_star(e: ast.AST) -> bool:
+        return isinstance(e, ast.Starred) and cont_expr(e.value)
+
+    def el_expr(e: ast.AST) -> bool:
+        if isinstance(e, ast.Name):
+            return e.id in elements or e.id in containers     # a hook result that is not a sequence is itself the item
+        if isinstance(e, ast.Subscript) and not isinstance(e.slice, ast.Slice):
+            return cont_expr(e.value)
+        if isinstance(e, ast.Call) and norm(e.func) == "next" and e.args:
+            return True
+        return False
+
+    nodes = list(walk_scope(fn))
+    for _ in range(4):
+        for n in nodes:
+            if isinstance(n, ast.Assign) and len(n.targets) == 1 and isinstance(n.targets[0], ast.Name):
+                if cont_expr(n.value):
+                    containers.add(n.targets[0].id)
+                elif el_expr(n.value) and not isinstance(n.value, ast.Name):
+                    elements.add(n.targets[0].id)
+            elif isinstance(n, ast.AnnAssign) and isinstance(n.target, ast.Name) and n.value is not None and cont_expr(n.value):
+                containers.add(n.target.id)
+            elif isinstance(n, (ast.For, ast.comprehension)) and isinstance(n.target, ast.Name) and cont_expr(n.iter):
+                elements.add(n.target.id)
+            elif isinstance(n, ast.Call) and isinstance(n.func, ast.Name) and n.func.id in hooks:
+                for a in n.args:
+                    if isinstance(a, ast.Name):
+                        elements.add(a.id)
+    # the elaborated Frame is the package's own object (no __bool__/__len__/__eq__ of the target's): not an item in this sense
+    own = {n.test.args[0].id for n in nodes if isinstance(n, ast.Assert) and isinstance(n.test, ast.Call) and norm(n.test.func) == "isinstance" and len(n.test.args) == 2
+           and isinstance(n.test.args[0], ast.Name) and norm(n.test.args[1]) == "Frame"}
+    elements -= own
+    if not ({"unwrapped", "replacement"} & containers or len(containers) >= 2) or not elements:
+        raise AnalysisError(f"TRUTH-2: hook results / their elements not recognised in extract_iter (containers {sorted(containers)}, elements {sorted(elements)})")
+    n_use = 0
+    for n in nodes:
+        if isinstance(n, (ast.Name, ast.Subscript)) and isinstance(getattr(n, "ctx", None), ast.Load) and el_expr(n) and not (isinstance(n, ast.Name) and n.id in containers and n.id not in elements):
+            n_use += 1
+            b = _boolean_parent(mod, n)
+            if b is not None:
+                ctx.R.fail("TRUTH-2", mod, n, f"extract_iter: the stack item `{norm(n)}` is used as a truth value in `{norm(b)[:70]}`: this runs the target's own __bool__/__len__ (perturbation; an exception there escapes "
+                           "the engine's guards) and drops an item that is falsy at this suspension point (Stack.leaf lost)", construct=f"truthiness of item {norm(n)}")
+                continue
+            p = mod.parent_of(n)
+            if isinstance(p, ast.Compare) and any(isinstance(o, (ast.Eq, ast.NotEq, ast.In, ast.NotIn)) for o in p.ops) and not any(isinstance(x, ast.Constant) and isinstance(x.value, (int, str)) and not isinstance(x.value, bool)
+                                                                                                                 for x in [p.left] + p.comparators):
+                others = [x for x in [p.left] + p.comparators if x is not n]
+                if isinstance(p.ops[0], (ast.In, ast.NotIn)) and p.left is not n:
+                    continue
+                ctx.R.fail("TRUTH-2", mod, p, f"extract_iter: the stack item `{norm(n)}` is compared by value in `{norm(p)[:70]}`: this runs the target's own __eq__/__ne__ outside every guard; items are compared by identity",
+                           construct=f"value comparison of item {norm(n)}")
+        elif isinstance(n, ast.Call) and isinstance(n.func, ast.Name) and n.func.id in ("filter", "any", "all") and n.args:
+            a = n.args[-1]
+            if cont_expr(a) and (n.func.id != "filter" or (isinstance(n.args[0], ast.Constant) and n.args[0].value is None) or norm(n.args[0]) == "bool"):
+                n_use += 1
+                ctx.R.fail("TRUTH-2", mod, n, f"extract_iter: `{norm(n)[:60]}` tests every stack item of a hook's result for truthiness: this runs the target's own __bool__/__len__ and drops items that are falsy at this "
+                           "suspension point (Stack.leaf lost)", construct=f"truthiness of items in {norm(a)}")
+    if n_use < 3:
+        raise AnalysisError(f"TRUTH-2: only {n_use} uses of stack items found in extract_iter")
+    ctx.R.ok("TRUTH-2", f"_extract.extract_iter: {n_use} uses of stack items {sorted(elements)} (from {sorted(containers)})", "identity / isinstance tests only; never a truth value or ==")
+
+
+def asend1(ctx: Ctx) -> None:
+    """ASEND-1 the awaitable of agen.asend(v) / agen.athrow(...) is followed to *its own* async generator.  The awaitable does
+    not expose the generator, so the glue picks it from gc.get_referents(aw) by "has ag_frame".  FACTS (asend_referents): on every
+    supported interpreter the referents are [the generator, the sent value], so when the value sent is itself an async generator
+    only the *first* referent with ag_frame is the right one; choosing the last follows the payload instead of the chain"""
+    mod = ctx.P.mod("_glue")
+    cands = [(q, fn) for q, fn in mod.defs.items() if isinstance(fn, ast.FunctionDef) and any(isinstance(c, ast.Constant) and c.value == "ag_frame" for c in ast.walk(fn))
+             and any(norm(c.func) == "gc.get_referents" for c in calls_in(fn, scope_only=True))]
+    if not cands:
+        raise AnalysisError("ASEND-1: no function selects the referent with ag_frame")
+    own = {v: ctx.F["interp"][v]["asend_referents"] for v in ctx.V.all}
+    if not all(o["asend_own_index"] == [0] and o["athrow_own_index"] == [0] for o in own.values()):
+        raise AnalysisError(f"ASEND-1: the facts no longer say that the generator is the first referent: {own}")
+    later = sorted(v for v, o in own.items() if o["asend_sent_value_index"] and o["asend_sent_value_index"][0] > 0)
+    for q, fn in cands:
+        ctx.R.saw(mod, q)
+        test = lambda e, var: isinstance(e, ast.Call) and norm(e.func) == "hasattr" and len(e.args) == 2 and isinstance(e.args[0], ast.Name) and e.args[0].id == var \
+            and isinstance(e.args[1], ast.Constant) and e.args[1].value == "ag_frame"
+        verdict = None
+        where: ast.AST = fn
+        for n in walk_scope(fn):
+            # for r in gc.get_referents(aw): if hasattr(r, 'ag_frame'): return r      -> first
+            if isinstance(n, ast.For) and isinstance(n.target, ast.Name) and "gc.get_referents" in norm(n.iter):
+                rev = norm(n.iter).startswith("reversed(") or "[::-1]" in norm(n.iter)
+                for st in n.body:
+                    if isinstance(st, ast.If) and test(st.test, n.target.id) and st.body and isinstance(st.body[0], ast.Return) and norm(st.body[0].value) == n.target.id:
+                        verdict, where = ("last" if rev else "first"), n
+                    elif isinstance(st, ast.If) and test(st.test, n.target.id) and st.body and isinstance(st.body[0], ast.Assign) and norm(st.body[0].value) == n.target.id \
+                            and not any(isinstance(b, ast.Break) for b in st.body):
+                        verdict, where = ("first" if rev else "last"), n
+                    elif isinstance(st, ast.If) and test(st.test, n.target.id) and st.body and isinstance(st.body[0], ast.Assign) and norm(st.body[0].value) == n.target.id:
+                        verdict, where = ("last" if rev else "first"), n
+            # [r for r in gc.get_referents(aw) if hasattr(r, 'ag_frame')] ... [0] / [-1] ; next(r for ...)
+            if isinstance(n, (ast.ListComp, ast.GeneratorExp)) and len(n.generators) == 1 and isinstance(n.generators[0].target, ast.Name) and "gc.get_referents" in norm(n.generators[0].iter) \
+                    and len(n.generators[0].ifs) == 1 and test(n.generators[0].ifs[0], n.generators[0].target.id) and norm(n.elt) == n.generators[0].target.id:
+                rev = norm(n.generators[0].iter).startswith("reversed(")
+                p = mod.parent_of(n)
+                if isinstance(p, ast.Call) and norm(p.func) == "next":
+                    verdict, where = ("last" if rev else "first"), p
+                elif isinstance(p, ast.Subscript):
+                    idx = norm(p.slice)
+                    verdict, where = {"0": "last" if rev else "first", "-1": "first" if rev else "last"}.get(idx, verdict), p
+                elif isinstance(p, ast.Assign) and len(p.targets) == 1 and isinstance(p.targets[0], ast.Name):
+                    lst = p.targets[0].id
+                    for u in walk_scope(fn):
+                        if isinstance(u, ast.Subscript) and norm(u.value) == lst and isinstance(u.ctx, ast.Load):
+                            idx = norm(u.slice)
+                            if idx in ("0", "-1"):
+                                verdict, where = ("first" if (idx == "0") != rev else "last"), u
+                        elif isinstance(u, ast.Call) and isinstance(u.func, ast.Attribute) and norm(u.func.value) == lst and u.func.attr == "pop":
+                            idx = norm(u.args[0]) if u.args else "-1"
+                            if idx in ("0", "-1"):
+                                verdict, where = ("first" if (idx == "0") != rev else "last"), u
+        if verdict == "first":
+            ctx.R.ok("ASEND-1", f"_glue.{q}: first referent with ag_frame", f"FACTS: own generator at index 0, sent value at index 1 on {sorted(own)}")
+        elif verdict == "last":
+            ctx.R.fail("ASEND-1", mod, where, f"{q} follows the *last* referent that has ag_frame; gc.get_referents(agen.asend(v)) is [agen, v] on CPython {later}, so when an async generator is "
+                       "sent into another one the stack continues into the payload instead of the generator being resumed (wrong frames, no error)", construct=f"{q}: last referent with ag_frame")
+        else:
+            ctx.R.undecided("ASEND-1", f"{q}: cannot tell which referent with ag_frame is selected")
+
+
 def sig1(ctx: Ctx) -> None:
     """SIG-1 every function registered for a hook takes the number of positional arguments the engine calls that hook with
     (unwrap_stackitem: 1; elaborate_frame / elaborate_context / unwrap_context / unwrap_context_generator: 2), and every call of
@@ -1779,5 +2025,5 @@ def sig1(ctx: Ctx) -> None:
 
 
 C10 = C10 + [sig1, eng5, truth1]
-C05 = C05 + [err1]
+C05 = C05 + [err1, truth2]
 C11 = C11 + [sig1]
